@@ -154,29 +154,36 @@ def finish (c : Cli) (event : String) : Cli :=
 def ackIfW (c : Cli) : Cli :=
   if c.unconf ≥ c.p.w || c.conState == 4 then confirmOutstanding c else c
 
-/-- one loop iteration: from the return of `Handleset_waitReady` to the next call -/
-def loopIter (c : Cli) : Cli :=
-  let ready := c.sock.readable
-  let (c, loopRunning) :=
-    if ready then
-      let (buf, sk, r, msg) := recvStep c.recvBuf c.sock
-      let c := { c with recvBuf := buf, sock := sk }
-      let (c, lr) := if r = -1 then ({ c with failure := true }, false) else (c, true)
-      let (c, lr) :=
-        if r > 0 then
-          let old := c.conState
-          let (c, ok) := checkMessage c msg
-          let (c, lr) := if !ok then ({ c with failure := true }, false) else (c, lr)
-          let c := if c.conState != old then
-              (if c.conState == 2 then emit c (.ev "STARTDT_CON") else if c.conState == 1 then emit c (.ev "STOPDT_CON") else c)
-            else c
-          (c, lr)
-        else (c, lr)
-      (ackIfW c, lr)
-    else (c, true)
+/-- what a received message does in the loop: `checkMessage`, the state-change notifications, the `w` test -/
+def onMessage (c : Cli) (msg : List Nat) (lr : Bool) : Cli × Bool :=
+  let old := c.conState
+  let (c, ok) := checkMessage c msg
+  let (c, lr) := if !ok then ({ c with failure := true }, false) else (c, lr)
+  let c := if c.conState != old then
+      (if c.conState == 2 then emit c (.ev "STARTDT_CON") else if c.conState == 1 then emit c (.ev "STOPDT_CON") else c)
+    else c
+  (c, lr)
+
+/-- the reception part of one loop iteration -/
+def loopRecv (c : Cli) : Cli × Bool :=
+  if c.sock.readable then
+    let (buf, sk, r, msg) := recvStep c.recvBuf c.sock
+    let c := { c with recvBuf := buf, sock := sk }
+    let (c, lr) := if r = -1 then ({ c with failure := true }, false) else (c, true)
+    let (c, lr) := if r > 0 then onMessage c msg lr else (c, lr)
+    (ackIfW c, lr)
+  else (c, true)
+
+/-- one loop iteration up to the decision whether the loop goes on -/
+def loopBody (c : Cli) : Cli × Bool :=
+  let (c, loopRunning) := loopRecv c
   let (c, ok) := handleTimeouts c
   let loopRunning := loopRunning && ok
-  let loopRunning := loopRunning && !c.close
+  (c, loopRunning && !c.close)
+
+/-- one loop iteration: from the return of `Handleset_waitReady` to the next call -/
+def loopIter (c : Cli) : Cli :=
+  let (c, loopRunning) := loopBody c
   if loopRunning then c else finish c "CLOSED"
 
 /-- run the thread from its current blocking point to the next one -/
